@@ -7,7 +7,7 @@
    exactly when its parent path is and the parent's children map has the
    entry (clause inv_edge), which is I7 "index p = n <-> walking gives n" in
    its local, one-step form (orefa_walk gives the unfolded form). *)
-From Avfs Require Import Base PathModel PathSpec PathCleanProofs PathIterProofs MemFS MemFile World
+From Avfs Require Import Base PathModel PathSpec PathProofs PathCleanProofs PathIterProofs MemFS MemFile World
   OrefaFS OrefaWorld OrefaLemmas.
 
 
@@ -1125,4 +1125,251 @@ Proof.
     cbv beta in H1.
     pose proof (kcount_aset_new nat (fun v => Nat.eqb v i) (rpath new) oc idx HFn) as H2. cbv beta in H2.
     fold idx1 in H1. destruct (Nat.eqb oc i); lia.
+Qed.
+
+(* ================================================================================================= *)
+(* The calls                                                                                         *)
+(* ================================================================================================= *)
+
+(* ---- Abs of any argument is a clean absolute path ------------------------------------------------- *)
+Lemma norm_rooted_good (bs : list str) (p : str) : gcs bs -> gcs (norm true (rev bs) (path_comps p)).
+Proof.
+  intros Hb.
+  assert (Hsf : Forall sepfree (path_comps p)).
+  { unfold path_comps. pose proof (comps_sepfree p) as H. induction H as [|x l Hx _ IH]; cbn [filter]; [constructor|].
+    destruct (ne x); [constructor; assumption|assumption]. }
+  assert (Hg : Forall good (rev bs)) by (apply Forall_rev; apply Forall_good_of; exact Hb).
+  destruct (@norm_shape true (path_comps p) 0 (rev bs) Hsf Hg (fun _ => eq_refl)) as (k' & names' & E & Hn & Hk).
+  unfold stk in E. cbn [repeat] in E. rewrite app_nil_r in E. rewrite E. rewrite (Hk eq_refl). unfold L. cbn [repeat app].
+  apply Forall_rev. eapply Forall_impl; [|exact Hn]. intros a. apply good_good_comp.
+Qed.
+
+Lemma abs_shape (bs : list str) (p : str) : gcs bs -> exists cs, gcs cs /\ abs Linux (abs_path bs) p = abs_path cs.
+Proof.
+  intros Hb. rewrite abs_linux_def. destruct (is_abs Linux p) eqn:E.
+  - destruct (clean_abs_comps p E) as [E1 E2]. eexists. split; [exact E2|exact E1].
+  - rewrite join_abs_any by exact Hb. eexists. split; [apply norm_rooted_good; exact Hb|reflexivity].
+Qed.
+
+Lemma oabs_shape s p : orefa_inv s -> exists cs, gcs cs /\ oabs s p = abs_path cs.
+Proof.
+  intros Hinv. destruct (inv_cwd _ Hinv) as (bs & Hb & Ec). unfold oabs. rewrite (inv_os _ Hinv), Ec.
+  apply abs_shape. exact Hb.
+Qed.
+
+(* ---- look-ups --------------------------------------------------------------------------------------- *)
+Lemma ofind_some s k i n : ofind s k = Some (i, n) <-> (ikey (o_index s) k = Some i /\ oget (o_heap s) i = Some n).
+Proof.
+  unfold ofind. destruct (ikey (o_index s) k) as [j|]; [|split; [discriminate|intros [? _]; discriminate]].
+  destruct (oget (o_heap s) j) as [m|] eqn:E.
+  - split; [intros [= <- <-]; auto|intros [[= <-] H]; rewrite E in H; inversion H; reflexivity].
+  - split; [discriminate|intros [[= <-] H]; congruence].
+Qed.
+
+Lemma ofind_none s k : hinv (o_index s) (o_heap s) -> ofind s k = None -> ikey (o_index s) k = None.
+Proof.
+  intros Hinv. unfold ofind. destruct (ikey (o_index s) k) as [j|] eqn:E; [|reflexivity].
+  destruct (hi_valid _ _ Hinv _ _ E) as (n & Hn). rewrite Hn. discriminate.
+Qed.
+
+Lemma ofind_root s : hinv (o_index s) (o_heap s) ->
+  exists n, ofind s [SLASH] = Some (0, n) /\ ofind s [] = Some (0, n) /\ on_dir n = true.
+Proof.
+  intros Hinv. destruct (hi_rootdir _ _ Hinv) as (n & Hn & Hd). destruct (hi_root _ _ Hinv) as [H1 H2].
+  exists n. unfold ofind. rewrite H1, H2, Hn. auto.
+Qed.
+
+(* an absolute path is the root, or a parent path and a name *)
+Lemma abs_path_split cs : gcs cs ->
+  (cs = [] /\ abs_path cs = [SLASH] /\ osplit Linux (abs_path cs) = Some ([], []))
+  \/ (exists ps c, cs = ps ++ [c] /\ gcs ps /\ good_comp c /\ abs_path cs = rpath cs
+        /\ osplit Linux (abs_path cs) = Some (rpath ps, c)).
+Proof.
+  intros Hcs. destruct cs as [|c0 cs0] using rev_ind.
+  - left. auto.
+  - clear IHcs0. right. apply gcs_snoc_inv in Hcs. destruct Hcs as [Hps Hc].
+    exists cs0, c0. split; [reflexivity|]. split; [exact Hps|]. split; [exact Hc|]. split.
+    + apply abs_path_rpath. destruct cs0; discriminate.
+    + rewrite abs_path_rpath by (destruct cs0; discriminate). apply split_abs_rpath.
+      apply comp_ok_nosl. apply good_comp_ok'. exact Hc.
+Qed.
+
+(* ---- the type bit is out of reach of Chmod ------------------------------------------------------------ *)
+Lemma has_mode_dir_testbit x : has x MODE_DIR = N.testbit x 31.
+Proof.
+  unfold has. change MODE_DIR with (2 ^ 31)%N.
+  destruct (N.testbit x 31) eqn:E.
+  - apply negb_true_iff. apply N.eqb_neq. intros H.
+    assert (H2 : N.testbit (N.land x (2 ^ 31)) 31 = true) by (rewrite N.land_spec, E, N.pow2_bits_true; reflexivity).
+    rewrite H in H2. rewrite N.bits_0 in H2. discriminate.
+  - apply negb_false_iff. apply N.eqb_eq. apply N.bits_inj. intros n. rewrite N.land_spec, N.bits_0.
+    rewrite N.pow2_bits_eqb. destruct (N.eqb_spec 31 n) as [<-|_]; [rewrite E; reflexivity|apply andb_false_r].
+Qed.
+
+Lemma with_mode_dir m mode : has (m_mode (with_mode m mode)) MODE_DIR = has (m_mode m) MODE_DIR.
+Proof.
+  rewrite !has_mode_dir_testbit. unfold with_mode. cbn [m_mode].
+  rewrite N.lor_spec, N.ldiff_spec, N.land_spec.
+  assert (E : N.testbit FILE_MODE_MASK 31 = false) by (vm_compute; reflexivity).
+  rewrite E. rewrite andb_false_r, orb_false_r, andb_true_r. reflexivity.
+Qed.
+
+(* ---- state-level helpers --------------------------------------------------------------------------------- *)
+Lemma inv_with s idx h : orefa_inv s -> hinv idx h -> orefa_inv (o_with s idx h).
+Proof. intros Hinv Hh. constructor; [apply (inv_os _ Hinv)|apply (inv_cwd _ Hinv)|exact Hh]. Qed.
+
+Lemma inv_with_heap s h : orefa_inv s -> hinv (o_index s) h -> orefa_inv (o_with_heap s h).
+Proof. intros Hinv Hh. apply inv_with; assumption. Qed.
+
+Lemma inv_create_node s ps c pi pn mode :
+  orefa_inv s -> gcs ps -> good_comp c ->
+  ofind s (rpath ps) = Some (pi, pn) -> on_dir pn = true -> ofind s (rpath (ps ++ [c])) = None ->
+  orefa_inv (fst (o_create_node s pi (rpath (ps ++ [c])) c mode)).
+Proof.
+  intros Hinv Hps Hc Hp Hpd Hn. apply ofind_some in Hp. destruct Hp as [Hpi Hpn].
+  apply (ofind_none _ _ (inv_h _ Hinv)) in Hn.
+  unfold o_create_node. cbn [fst]. constructor; cbn [o_os o_cwd o_index o_heap].
+  - apply (inv_os _ Hinv).
+  - apply (inv_cwd _ Hinv).
+  - apply (hinv_create _ _ ps c pi pn); try assumption; try reflexivity. apply (inv_h _ Hinv).
+Qed.
+
+(* an update of the data or the meta data of one node *)
+Lemma inv_upd_data s c cn d : orefa_inv s -> oget (o_heap s) c = Some cn ->
+  orefa_inv (o_with_heap s (oupd (o_heap s) c (on_with_data cn d))).
+Proof.
+  intros Hinv Hc. apply inv_with_heap; [exact Hinv|].
+  apply (hinv_upd _ _ c cn); try reflexivity; [apply (inv_h _ Hinv)|exact Hc].
+Qed.
+
+Lemma inv_upd_mode s c cn mode : orefa_inv s -> oget (o_heap s) c = Some cn ->
+  orefa_inv (o_with_heap s (oupd (o_heap s) c (on_with_meta cn (with_mode (on_meta cn) mode)))).
+Proof.
+  intros Hinv Hc. apply inv_with_heap; [exact Hinv|].
+  apply (hinv_upd _ _ c cn); try reflexivity; [apply (inv_h _ Hinv)|exact Hc|].
+  unfold on_dir. cbn [on_with_meta on_meta]. apply with_mode_dir.
+Qed.
+
+Lemma inv_upd_owner s c cn uid gid : orefa_inv s -> oget (o_heap s) c = Some cn ->
+  orefa_inv (o_with_heap s (oupd (o_heap s) c (on_with_meta cn (with_owner (on_meta cn) uid gid)))).
+Proof.
+  intros Hinv Hc. apply inv_with_heap; [exact Hinv|].
+  apply (hinv_upd _ _ c cn); try reflexivity; [apply (inv_h _ Hinv)|exact Hc].
+Qed.
+
+(* ---- Mkdir ------------------------------------------------------------------------------------------------ *)
+Lemma step_mkdir s name perm : orefa_inv s -> orefa_inv (fst (o_mkdir s name perm)).
+Proof.
+  intros Hinv. unfold o_mkdir. destruct name as [|x name']; [exact Hinv|]. set (name := x :: name').
+  destruct (oabs_shape s name Hinv) as (cs & Hcs & Eabs). rewrite Eabs, (inv_os _ Hinv).
+  destruct (abs_path_split cs Hcs) as [(-> & E1 & E2)|(ps & c & -> & Hps & Hc & E1 & E2)]; rewrite E2.
+  - destruct (ofind_root s (inv_h _ Hinv)) as (n & H1 & _). rewrite E1, H1. exact Hinv.
+  - rewrite E1. destruct (ofind s (rpath (ps ++ [c]))) eqn:Ec; [exact Hinv|].
+    destruct (ofind s (rpath ps)) as [[pi pn]|] eqn:Ep.
+    + destruct (on_dir pn) eqn:Ed; [|exact Hinv]. cbn [negb]. unfold o_create_dir.
+      apply (inv_create_node s ps c pi pn); assumption.
+    + destruct (o_up_loop (S (length (rpath ps))) s (rpath ps)); exact Hinv.
+Qed.
+
+(* ---- OpenFile ----------------------------------------------------------------------------------------------- *)
+Lemma step_open_file s name flag perm : orefa_inv s -> orefa_inv (fst (o_open_file s name flag perm)).
+Proof.
+  intros Hinv. unfold o_open_file.
+  destruct (oabs_shape s name Hinv) as (cs & Hcs & Eabs). rewrite Eabs, (inv_os _ Hinv).
+  destruct (abs_path_split cs Hcs) as [(-> & E1 & E2)|(ps & c & -> & Hps & Hc & E1 & E2)]; rewrite E2.
+  - destruct (ofind_root s (inv_h _ Hinv)) as (n & H1 & _ & Hd). rewrite E1, H1, Hd.
+    destruct (has (to_open_mode flag) OpenCreateExcl); [exact Hinv|].
+    destruct (has (to_open_mode flag) OpenWrite); exact Hinv.
+  - rewrite E1. destruct (ofind s (rpath (ps ++ [c]))) as [[ci cn]|] eqn:Ec.
+    + destruct (on_dir cn).
+      * destruct (has (to_open_mode flag) OpenCreateExcl); [exact Hinv|].
+        destruct (has (to_open_mode flag) OpenWrite); exact Hinv.
+      * destruct (has (to_open_mode flag) OpenCreateExcl); [exact Hinv|]. cbn [fst].
+        apply ofind_some in Ec. destruct Ec as [_ Hcn]. apply inv_upd_data; assumption.
+    + destruct (ofind s (rpath ps)) as [[pi pn]|] eqn:Ep; [|exact Hinv].
+      destruct (on_dir pn) eqn:Ed; [|exact Hinv]. cbn [negb].
+      destruct (has (to_open_mode flag) OpenCreate); [|exact Hinv]. cbn [negb].
+      destruct (has (to_open_mode flag) OpenWrite); [|exact Hinv]. cbn [negb].
+      unfold o_create_file.
+      pose proof (inv_create_node s ps c pi pn (N.lor (file_mode (o_os s)) (N.ldiff (N.land perm FILE_MODE_MASK) (o_umask s))) Hinv Hps Hc Ep Ed Ec) as H.
+      destruct (o_create_node s pi (rpath (ps ++ [c])) c _) as [s1 c1]. exact H.
+Qed.
+
+(* ---- Remove ------------------------------------------------------------------------------------------------- *)
+Lemma step_remove s name : orefa_inv s -> orefa_inv (fst (o_remove s name)).
+Proof.
+  intros Hinv. unfold o_remove.
+  destruct (oabs_shape s name Hinv) as (cs & Hcs & Eabs). rewrite Eabs, (inv_os _ Hinv).
+  destruct (abs_path_split cs Hcs) as [(-> & E1 & E2)|(ps & c & -> & Hps & Hc & E1 & E2)]; rewrite E2.
+  - destruct (ofind_root s (inv_h _ Hinv)) as (n & H1 & H2 & Hd). rewrite E1, H1, H2. rewrite Nat.eqb_refl. exact Hinv.
+  - rewrite E1. destruct (ofind s (rpath (ps ++ [c]))) as [[ci cn]|] eqn:Ec; [|exact Hinv].
+    destruct (ofind s (rpath ps)) as [[pi pn]|] eqn:Ep; [|exact Hinv].
+    destruct (Nat.eqb ci pi); [exact Hinv|].
+    destruct (on_dir cn && match on_ch cn with [] => false | _ :: _ => true end) eqn:Ene; [exact Hinv|].
+    cbn [fst]. apply inv_with; [exact Hinv|].
+    apply ofind_some in Ec. destruct Ec as [Hci Hcn]. apply ofind_some in Ep. destruct Ep as [Hpi Hpn].
+    apply (hinv_unlink _ _ ps c pi pn ci cn); try assumption; [apply (inv_h _ Hinv)|].
+    destruct (on_dir cn) eqn:Ed.
+    + cbn [andb] in Ene. destruct (on_ch cn); [reflexivity|discriminate].
+    + apply (hi_leaf _ _ (inv_h _ Hinv) _ _ Hcn Ed).
+Qed.
+
+(* ---- Link --------------------------------------------------------------------------------------------------- *)
+Lemma step_link s oldname newname : orefa_inv s -> orefa_inv (fst (o_link s oldname newname)).
+Proof.
+  intros Hinv. unfold o_link.
+  destruct (oabs_shape s newname Hinv) as (cs & Hcs & Eabs). rewrite Eabs, (inv_os _ Hinv).
+  assert (Hw : owin s = false) by (unfold owin; rewrite (inv_os _ Hinv); reflexivity). rewrite Hw.
+  destruct (abs_path_split cs Hcs) as [(-> & E1 & E2)|(ps & c & -> & Hps & Hc & E1 & E2)]; rewrite E2.
+  - destruct (ofind s (oabs s oldname)) as [[oc ocn]|]; [|exact Hinv].
+    destruct (ofind_root s (inv_h _ Hinv)) as (n & H1 & H2 & Hd). rewrite E1, H1, H2, Hd. exact Hinv.
+  - rewrite E1. destruct (ofind s (oabs s oldname)) as [[oc ocn]|] eqn:Eo; [|exact Hinv].
+    destruct (ofind s (rpath ps)) as [[pi pn]|] eqn:Ep; [|exact Hinv].
+    destruct (on_dir pn) eqn:Ed; [|exact Hinv]. cbn [negb].
+    destruct (ofind s (rpath (ps ++ [c]))) eqn:Ec; [exact Hinv|].
+    destruct (on_dir ocn) eqn:Eod; [exact Hinv|]. cbn [fst].
+    apply ofind_some in Eo. destruct Eo as [_ Hocn]. apply ofind_some in Ep. destruct Ep as [Hpi Hpn].
+    apply (ofind_none _ _ (inv_h _ Hinv)) in Ec.
+    assert (Hne : oc <> pi) by (intros ->; rewrite Hpn in Hocn; inversion Hocn; subst; congruence).
+    assert (Hoc1 : oget (o_add_child (o_heap s) pi c oc) oc = Some ocn).
+    { unfold o_add_child. rewrite Hpn. rewrite (oget_oupd _ _ _ _ _ Hpn).
+      destruct (Nat.eqb_spec pi oc); [congruence|exact Hocn]. }
+    rewrite Hoc1. apply inv_with; [exact Hinv|].
+    apply (hinv_link _ _ ps c pi pn oc ocn); try assumption. apply (inv_h _ Hinv).
+Qed.
+
+(* ---- Truncate, Chmod, Chown, Chdir ------------------------------------------------------------------------------ *)
+Lemma step_truncate s name size : orefa_inv s -> orefa_inv (fst (o_truncate s name size)).
+Proof.
+  intros Hinv. unfold o_truncate. destruct (Z.ltb size 0 && negb (owin s)); [exact Hinv|].
+  destruct (ofind s (oabs s name)) as [[c cn]|] eqn:Ec; [|exact Hinv].
+  destruct (on_dir cn); [exact Hinv|]. destruct (Z.ltb size 0); [exact Hinv|]. cbn [fst].
+  apply ofind_some in Ec. destruct Ec as [_ Hcn]. apply inv_upd_data; assumption.
+Qed.
+
+Lemma step_chmod s name mode : orefa_inv s -> orefa_inv (fst (o_chmod s name mode)).
+Proof.
+  intros Hinv. unfold o_chmod. destruct (ofind s (oabs s name)) as [[c cn]|] eqn:Ec; [|exact Hinv]. cbn [fst].
+  apply ofind_some in Ec. destruct Ec as [_ Hcn]. apply inv_upd_mode; assumption.
+Qed.
+
+Lemma step_chown s name uid gid : orefa_inv s -> orefa_inv (fst (o_chown s name uid gid)).
+Proof.
+  intros Hinv. unfold o_chown. destruct (owin s); [exact Hinv|].
+  destruct (ofind s (oabs s name)) as [[c cn]|] eqn:Ec; [|exact Hinv]. cbn [fst].
+  apply ofind_some in Ec. destruct Ec as [_ Hcn]. apply inv_upd_owner; assumption.
+Qed.
+
+Lemma inv_with_cwd s p : orefa_inv s -> orefa_inv (o_with_cwd s (oabs s p)).
+Proof.
+  intros Hinv. destruct (oabs_shape s p Hinv) as (cs & Hcs & Eabs). constructor; cbn [o_with_cwd o_os o_cwd o_index o_heap].
+  - apply (inv_os _ Hinv).
+  - exists cs. auto.
+  - apply (inv_h _ Hinv).
+Qed.
+
+Lemma step_chdir s dir : orefa_inv s -> orefa_inv (fst (o_chdir s dir)).
+Proof.
+  intros Hinv. unfold o_chdir. destruct (ofind s (oabs s dir)) as [[c cn]|]; [|exact Hinv].
+  destruct (on_dir cn); [|exact Hinv]. cbn [fst]. apply inv_with_cwd. exact Hinv.
 Qed.
